@@ -412,6 +412,168 @@ class Skeleton:
             return self.has_grammar_action(n[2])
         return False
 
+    # ------------------------------------------------------------------ recursion shape
+    def _has_match(self, n):
+        if n[0] in ('match', 'advance'):
+            return True
+        if n[0] == 'seq':
+            return any(self._has_match(x) for x in n[1])
+        if n[0] == 'if':
+            return self._has_match(n[3]) or self._has_match(n[4])
+        if n[0] == 'ifnull':
+            return self._has_match(n[2]) or self._has_match(n[3])
+        if n[0] == 'switch':
+            return any(self._has_match(b) for _, b in n[1])
+        if n[0] == 'loop':
+            return self._has_match(n[2])
+        return False
+
+    def _call_sites(self, n, later, out):
+        """collects (callee, may a token still be matched in this function after the call returns?)"""
+        k = n[0]
+        if k == 'call':
+            out.append((n[1], later, id(n)))
+        elif k == 'seq':
+            lm = later
+            for c in reversed(n[1]):
+                if c[0] == 'return':
+                    lm = False          # nothing after a return is executed
+                    continue
+                self._call_sites(c, lm, out)
+                lm = lm or self._has_match(c)
+        elif k == 'if':
+            self._call_sites(n[3], later, out)
+            self._call_sites(n[4], later, out)
+        elif k == 'ifnull':
+            self._call_sites(n[2], later, out)
+            self._call_sites(n[3], later, out)
+        elif k == 'switch':
+            for _, b in n[1]:
+                self._call_sites(b, later, out)
+        elif k == 'loop':
+            self._call_sites(n[2], later or self._has_match(n[2]), out)
+
+    def sequence_recursion(self):
+        """cycles of grammar functions in which no call is followed by the match of a closing token: every repetition of the
+        construct (statement after ';', argument after ',') adds stack frames, so the depth grows with the LENGTH of the
+        input and not with its nesting.  Returns a sorted list of cycles (tuples of function names)."""
+        keys = list(self.skel.keys())
+        und = {}
+        und_sites = {}
+        for q in keys:
+            sites = []
+            self._call_sites(self.skeleton(q) if q not in self.skel else self.skel[q], False, sites)
+            und[q] = set(c for c, later, nid in sites if not later)
+            und_sites[q] = set(nid for c, later, nid in sites if not later)
+            for c, later, nid in sites:
+                if c not in self.skel:
+                    self.skeleton(c)
+                    if c not in keys:
+                        keys.append(c)
+        # strongly connected components of the undelimited-call graph
+        name = lambda q: q if isinstance(q, str) else q[0]
+        reach = {q: set(und.get(q, ())) for q in und}
+        changed = True
+        while changed:
+            changed = False
+            for q in reach:
+                new = set()
+                for r in reach[q]:
+                    new |= reach.get(r, set())
+                if not new <= reach[q]:
+                    reach[q] |= new
+                    changed = True
+        comps = {}
+        for q in reach:
+            if q in reach[q]:
+                members = set(r for r in reach[q] if q in reach.get(r, set())) | {q}
+                comp = tuple(sorted(set(name(r) for r in members)))
+                comps[comp] = members
+        out = []
+        for comp, members in sorted(comps.items()):
+            # the steps of the sequence: a token matched and, right after it, an undelimited call that stays in the cycle
+            seps = set()
+            for q in members:
+                steps = set()
+                self._steps(self.skel[q], members, und_sites.get(q, set()), steps, None)
+                fm = self._first_match(self.skel[q])
+                for st in steps:
+                    tok, callee = st.split(' ')
+                    # the step that repeats the sequence: a self call, or the call of a "more?" function whose first action
+                    # is to match the separator
+                    if callee == name(q) or (tok == fm and tok not in ('ID', 'INT', 'NV_ID', 'FNAME')):
+                        seps.add('%s: %s then %s' % (name(q), tok, callee))
+            out.append((comp, sorted(seps)))
+        return out
+
+    def _first_match(self, n):
+        """token matched first on the fall-through path of a function (None when a call or a branch comes first)"""
+        k = n[0]
+        if k == 'match':
+            return n[1]
+        if k == 'seq':
+            for c in n[1]:
+                if c[0] in ('if', 'ifnull'):
+                    a_, b_ = (c[3], c[4]) if c[0] == 'if' else (c[2], c[3])
+                    # an early return on one side does not count
+                    live = [x for x in (a_, b_) if not self.ends_with_return(x)]
+                    if len(live) == 1 and not self._has_match(live[0]) and not self.has_grammar_action(live[0]):
+                        continue
+                    if len(live) == 1:
+                        return self._first_match(live[0])
+                    return None
+                r = self._first_match(c)
+                if r is not None:
+                    return r
+                if self.has_grammar_action(c):
+                    return None
+            return None
+        return None
+
+    def _steps(self, n, members, undelimited, out, last=None):
+        """threads the token matched last on the straight-line path; records (token, callee) for undelimited calls that stay
+        in the cycle.  Returns the last token after n (None when paths disagree)."""
+        k = n[0]
+        if k == 'match':
+            return n[1]
+        if k == 'call':
+            if n[1] in members:
+                if id(n) in undelimited and last is not None:
+                    out.add('%s %s' % (last, n[1] if isinstance(n[1], str) else n[1][0]))
+                return None
+            return last
+        if k == 'seq':
+            for c in n[1]:
+                last = self._steps(c, members, undelimited, out, last)
+            return last
+        if k in ('if', 'ifnull'):
+            a_, b_ = (n[3], n[4]) if k == 'if' else (n[2], n[3])
+            la, lb = self._steps(a_, members, undelimited, out, last), self._steps(b_, members, undelimited, out, last)
+            ra, rb = self.ends_with_return(a_), self.ends_with_return(b_)
+            if ra and not rb:
+                return lb
+            if rb and not ra:
+                return la
+            return la if la == lb else None
+        if k == 'switch':
+            outs = set()
+            for _, body in n[1]:
+                l2 = self._steps(body, members, undelimited, out, last)
+                if not self.ends_with_return(body):
+                    outs.add(l2)
+            return outs.pop() if len(outs) == 1 else None
+        if k == 'loop':
+            self._steps(n[2], members, undelimited, out, last)
+            return None
+        return last
+
+    def ends_with_return(self, n):
+        if n[0] == 'return':
+            return True
+        if n[0] == 'seq':
+            return bool(n[1]) and self.ends_with_return(n[1][-1])
+        return False
+
     # ------------------------------------------------------------------ generator
     def language(self, start, n):
         """token sequences (without the final T_EOF) of length <= n accepted without error"""
